@@ -3,11 +3,14 @@ package server
 // Client actors: scheduler-owned RESP clients (no goroutines).
 
 import (
+	"encoding/base64"
+	"encoding/json"
 	"fmt"
 	"regexp"
 	"strconv"
 	"strings"
 	"time"
+	"unicode/utf8"
 )
 
 // rv is a parsed RESP value.
@@ -146,6 +149,64 @@ type Cmd struct {
 	HTTP bool `json:"http,omitempty"`
 	// Connect: only open the connection and wait for what the server says
 	Connect bool `json:"connect,omitempty"`
+}
+
+// Replay files are JSON; arguments are arbitrary bytes (C04 and C16 write NUL, 0xFF, ...).
+// encoding/json would replace invalid UTF-8 by U+FFFD and silently change the program, so such
+// commands travel base64-encoded.
+type cmdPlain Cmd
+
+type cmdWire struct {
+	cmdPlain
+	ArgsB64 []string `json:"args_b64,omitempty"`
+	RawB64  string   `json:"raw_b64,omitempty"`
+}
+
+func (c Cmd) MarshalJSON() ([]byte, error) {
+	w := cmdWire{cmdPlain: cmdPlain(c)}
+	bin := false
+	for _, a := range c.Args {
+		if !utf8.ValidString(a) {
+			bin = true
+		}
+	}
+	if bin {
+		w.Args = nil
+		for _, a := range c.Args {
+			w.ArgsB64 = append(w.ArgsB64, base64.StdEncoding.EncodeToString([]byte(a)))
+		}
+	}
+	if !utf8.ValidString(c.Raw) {
+		w.Raw = ""
+		w.RawB64 = base64.StdEncoding.EncodeToString([]byte(c.Raw))
+	}
+	return json.Marshal(w)
+}
+
+func (c *Cmd) UnmarshalJSON(b []byte) error {
+	var w cmdWire
+	if err := json.Unmarshal(b, &w); err != nil {
+		return err
+	}
+	*c = Cmd(w.cmdPlain)
+	if len(w.ArgsB64) > 0 {
+		c.Args = nil
+		for _, a := range w.ArgsB64 {
+			d, err := base64.StdEncoding.DecodeString(a)
+			if err != nil {
+				return err
+			}
+			c.Args = append(c.Args, string(d))
+		}
+	}
+	if w.RawB64 != "" {
+		d, err := base64.StdEncoding.DecodeString(w.RawB64)
+		if err != nil {
+			return err
+		}
+		c.Raw = string(d)
+	}
+	return nil
 }
 
 func (c Cmd) String() string {
